@@ -1730,6 +1730,26 @@ impl<'a> VisitMut for Rewriter<'a> {
                             }
                         }
                     }
+                    ("finish", 0) => {
+                        // N13: `f.debug_struct(NAME).field(k1, v1)...field(kn, vn).finish()` -> the same writes as sequential calls on the formatter
+                        // (core::fmt::DebugStruct is a builder that writes each field through to the Formatter it borrows, in call order)
+                        let mut fields: Vec<(Expr, Expr)> = vec![];
+                        let mut cur: &Expr = &m.receiver;
+                        let mut root: Option<(Expr, Expr)> = None;
+                        loop {
+                            match strip_paren(cur) {
+                                Expr::MethodCall(mc) if mc.method == "field" && mc.args.len() == 2 => { fields.push((mc.args[0].clone(), mc.args[1].clone())); cur = &mc.receiver; }
+                                Expr::MethodCall(mc) if mc.method == "debug_struct" && mc.args.len() == 1 => { root = Some(((*mc.receiver).clone(), mc.args[0].clone())); break; }
+                                _ => break,
+                            }
+                        }
+                        if let Some((f, name)) = root {
+                            fields.reverse();
+                            let calls: Vec<Stmt> = fields.iter().map(|(k, v)| { let s: Stmt = parse_quote!(#f.vds_field(#k, #v);); s }).collect();
+                            self.n.rule("N13", sp, "debug_struct(..).field(..)*.finish() -> sequential formatter calls in the same order");
+                            replacement = Some(parse_quote!({ #f.vds_begin(#name); #(#calls)* #f.vds_finish() }));
+                        }
+                    }
                     ("add_many", 1) | ("mul_many", 1) => {
                         // N4c: library folds that take `impl IntoIterator<Item = Target>`: an argument that merely iterates a
                         // slice/array/Vec (`xs.iter()[.copied()/.cloned()]`, `&xs`, `xs`) is passed as that sequence (`xs.as_slice()`);
